@@ -100,6 +100,9 @@ class Observer:
                         cb_inner.acquire()
                         if obs.announcing.get((coord.transfer_id, obs.me())):
                             obs.emit(coord.transfer_id, 'cbLock %d' % obs.who(coord.transfer_id))
+                            if coord._done_callbacks:
+                                # the registered done callbacks run now, under this lock
+                                obs.emit(coord.transfer_id, 'cbDone %d' % obs.who(coord.transfer_id))
 
                     def __exit__(s2, *a):
                         # the model's annEnd is the release of the callbacks lock: stamp it before
@@ -218,11 +221,6 @@ class Observer:
                 super()._run_failure_cleanups()
                 if not obs.abort_by.get(me):
                     obs.emit(self.transfer_id, 'cleaned %d' % obs.who(self.transfer_id))
-
-            def _run_callbacks(self, callbacks):
-                if callbacks is self._done_callbacks and callbacks:
-                    obs.emit(self.transfer_id, 'cbDone %d' % obs.who(self.transfer_id))
-                super()._run_callbacks(callbacks)
 
         self.saved.append((manager_mod, 'TransferCoordinator', manager_mod.TransferCoordinator))
         manager_mod.TransferCoordinator = ObservedCoordinator
